@@ -417,11 +417,11 @@ def main():
     for (L, N) in cfgs:
         for ob in (True, False):
             for sync in (False, True):
-                jobs.append((job_entries, {'L': L, 'N': N, 'use_obliquity': ob, 'sync': sync, 'totals': (L <= 3 and N <= 6) or TIER == 'thorough' and L <= 4 and N <= 10}))
+                jobs.append((job_entries, {'L': L, 'N': N, 'use_obliquity': ob, 'sync': sync, 'totals': (L <= 3 and N <= 6) or (TIER == 'thorough' and ((L <= 3 and N <= 10) or (L == 4 and N <= 6)))}))
     for (L, N) in ([(2, 2), (2, 6), (3, 4)] if TIER != 'thorough' else [(2, 2), (2, 6), (2, 20), (3, 4), (3, 10), (5, 6), (7, 20)]):
         jobs.append((job_sync_limits, {'L': L, 'N': N}))
         jobs.append((job_sync_limits, {'L': L, 'N': N, 'distinct': True}))
-    for (L, N, ob) in ([(2, 4, True), (3, 4, False)] if TIER != 'thorough' else [(2, 4, True), (2, 20, True), (3, 6, True), (4, 6, False), (7, 10, False)]):
+    for (L, N, ob) in ([(2, 4, True), (3, 4, False)] if TIER != 'thorough' else [(2, 4, True), (2, 20, True), (3, 6, True), (4, 6, False), (7, 4, False)]):
         jobs.append((job_grouping, {'L': L, 'N': N, 'use_obliquity': ob}))
     jobs.append((job_arrays, {'L': 2, 'N': 4}))
     jobs.append((job_love_callsite, {'L': 7 if TIER == 'thorough' else 4}))
